@@ -61,3 +61,109 @@ def fx_folder_closed_tables():
         assert v == {"[X1]": (1, 1), "[=X1]": (2, 1), "[X2]": (1, 2), "[=X2]": (2, 2)}, v
     finally:
         shutil.rmtree(d)
+
+
+def fx_ghost_counter_relational_invariant():
+    """the interpreter infers `n == $consumed` for a correct consumer loop and loses it for a wrong one"""
+    from .core import Ctx
+    from .sym import Engine, State, Num
+    from .lin import Lin, eq
+    from rules.attrib import NextModel, GHOST
+    d = _mk({"__init__.py": "__all__ = []\n", "m.py": """
+        def good(it, budget):
+            n = 0
+            while n < budget:
+                try:
+                    next(it)
+                    n += 1
+                except StopIteration:
+                    break
+            return n
+        def bad(it, budget):
+            n = 0
+            while n < budget:
+                try:
+                    next(it)
+                except StopIteration:
+                    pass
+                n += 1
+            return n
+        """})
+    try:
+        ctx = Ctx(d, "quick")
+
+        class H(NextModel):
+            def on_call(self, eng, fr, node, callee, args, kwargs, st):
+                if self.is_next(callee) and args:
+                    return self.model_next(eng, fr, node, args, st)
+                return None
+        for name, want in (("good", True), ("bad", False)):
+            st = State()
+            st.env[GHOST] = Num(Lin.const(0))
+            fr = Engine(ctx, H()).run_function(ctx.fn("selfies.m." + name), {}, state=st)
+            assert fr.returns, name
+            ok = all(isinstance(v, Num) and s.entails(eq(v.lin - s.env[GHOST].lin, 0)) for s, v in fr.returns)
+            assert ok is want, "%s: returned count == symbols consumed should be %s" % (name, want)
+    finally:
+        shutil.rmtree(d)
+
+
+def fx_closure_with_nonlocal_counter():
+    """a nested function that rebinds a nonlocal and mutates a captured list is inlined with the shared variables"""
+    from .core import Ctx
+    from .sym import Engine, Hooks, State, Num, Unk, vkey, NONE
+    from .lin import Lin, eq, ge
+    d = _mk({"__init__.py": "__all__ = []\n", "m.py": """
+        def w(out, toks, off, res):
+            pos = off - 1
+            def emit(t):
+                nonlocal pos
+                out.append(t)
+                pos += len(t)
+            for t in toks:
+                emit(t)
+                res.append(pos)
+        def w_bad(out, toks, off, res):
+            pos = off - 1
+            def emit(t):
+                nonlocal pos
+                out.append(t)
+                pos += len(t)
+            for t in toks:
+                emit(t)
+                out.append("%")
+                res.append(pos)
+        """})
+    try:
+        ctx = Ctx(d, "quick")
+        for name, want in (("w", True), ("w_bad", False)):
+            f = ctx.fn("selfies.m." + name)
+            seen = []
+
+            class H(Hooks):
+                def on_call(self, eng, fr, node, callee, args, kwargs, st):
+                    if isinstance(callee, tuple) and callee[0] == "method" and callee[1] == "append" and len(args) == 1:
+                        if vkey(callee[2]) == ("unk", ("param", f.qual, "out")):
+                            s2 = st.copy()
+                            s2.epoch += 1
+                            a = args[0]
+                            if hasattr(a, "value") and isinstance(getattr(a, "value"), str):
+                                ln = Lin.const(len(a.value))
+                            else:
+                                ln = Lin.var(("len", vkey(a), 0))
+                                s2.add_lin(ge(ln, 0))
+                            s2.env["$len"] = Num(s2.env["$len"].lin + ln)
+                            return [(s2, NONE)]
+                        if vkey(callee[2]) == ("unk", ("param", f.qual, "res")):
+                            seen.append((args[0], st))
+                            return [(st, NONE)]
+                    return None
+            st = State()
+            st.env["$len"] = Num(Lin.const(0))
+            off = Lin.var(("param", f.qual, "off"))
+            Engine(ctx, H()).run_function(f, {"off": Num(off)}, state=st)
+            assert seen, name
+            ok = all(isinstance(v, Num) and s.entails(eq(v.lin - (s.env["$len"].lin - Lin.const(1) + off), 0)) for v, s in seen)
+            assert ok is want, "%s: reported position == characters written - 1 + offset should be %s" % (name, want)
+    finally:
+        shutil.rmtree(d)
